@@ -20,9 +20,12 @@ def generate(tier, seed):
     pr0 = p_rules()
     for pre in ([], ["EN:1"], ["EN:0", "EN:1"], ["EN:1", "EN:1", "EN:0", "EN:1"], ["EN:0"],
                 # calls made WHILE notifications are off (they emit unconditionally or not at all), then on again
-                ["EN:0", "SV", "EN:1"], ["EN:0", "CL", "EN:1"], ["EN:0", A("p", "p", pr0[3]), "EN:1"], ["EN:0", "SV", "CL", "EN:1", "EN:1"]):
+                ["EN:0", "SV", "EN:1"], ["EN:0", "CL", "EN:1"], ["EN:0", A("p", "p", pr0[3]), "EN:1"], ["EN:0", "SV", "CL", "EN:1", "EN:1"],
+                # a grouping rule stored while automatic link building was off: removing it later changes the policy (one
+                # notification) although the link update that follows fails
+                ["EB:0", A("g", "g", g_rules()[2]), "EB:1"], ["EB:0", A("g", "g", g_rules()[0]), A("g", "g", g_rules()[3]), "EB:1"]):
         for k in (1, 2):
-            if k == 2 and pre not in ([], ["EN:1"], ["EN:0", "SV", "EN:1"]):
+            if k == 2 and pre not in ([], ["EN:1"], ["EN:0", "SV", "EN:1"]) and pre[0] != "EB:0":
                 continue
             for h in itertools.product(al_ex, repeat=k):
                 steps = list(obs)
